@@ -132,6 +132,45 @@ def rollback_case(rng, tier, seed, k):
     return case, probs
 
 
+def pipe_case(rng, tier, seed, k):
+    """Two pipeline stages with globally indexed layer names (as DeepSpeed names them): the state saved on ANY rank contains the
+    factors of the layers of BOTH stages, exactly as held on the owning stage."""
+    import torch
+    from harness import neoxrun
+    D = rng.choice([1, 2])
+    layers = []
+    for _ in range(rng.randint(1, 2)):
+        kind = rng.choice(['col', 'row'])
+        layers.append((kind, rng.randint(1, 3), rng.randint(1, 3), int(rng.random() < 0.6)))
+    cfg = {'P': 2, 'D': D, 'M': 1, 'layers': layers, 'batch': 2, 'model_seed': rng.randrange(100), 'data_seed': rng.randrange(10 ** 6),
+           'damping': 0.5, 'factor_decay': 0.5, 'lr': 1.0, 'kl_clip': None, 'allreduce_bucket_cap_mb': rng.choice([0.0, 25.0]),
+           'factor_update_steps': 1, 'inv_update_steps': 1, 'accumulation_steps': 1, 'global_layer_names': True}
+    hist = [['train', 1]] * rng.randint(1, 2) + [['save']]
+    case = {'cfg': dict(cfg), 'history': hist, 'seed': seed + k, 'dir_mode': False, 'kind': 'pipeline'}
+    probs = []
+    MARKS.clear()
+    w = neoxrun.run(cfg, hist, seed=seed + k, observe=observe)
+    MARKS.clear()
+    W, nl = 2 * D, len(layers)
+    if not w.ok:
+        probs.append(f'run failed: {w.errors[:1]} {w.deadlock} {dict(list(w.exceptions.items())[:2])}'[:400])
+    else:
+        held = {r: w.results[r][-1]['extra'] for r in range(W)}
+        for r in range(W):
+            sd = w.results[r][-1]['sd']
+            want = sorted(str(i) for i in range(2 * nl))
+            if sorted(sd.get('layers', {}).keys()) != want:
+                probs.append(f'rank {r} (stage {neoxrun.coord(cfg, r)[0]}): saved state has layers {sorted(sd.get("layers", {}).keys())}, expected those of both stages {want}')
+                continue
+            for p in range(2):
+                owner = next(q for q in range(W) if neoxrun.coord(cfg, q)[0] == p)
+                for i in range(nl):
+                    s_ = sd['layers'][str(p * nl + i)]
+                    if not (torch.equal(s_['A'], held[owner][i]['A'].cpu()) and torch.equal(s_['G'], held[owner][i]['G'].cpu())):
+                        probs.append(f'rank {r}: saved factors of layer {p * nl + i} are not those held on stage {p}')
+    return case, probs
+
+
 def run(tier, seed, rng):
     import torch
     from harness import neoxrun
@@ -142,6 +181,14 @@ def run(tier, seed, rng):
     projq = []
     n = 40 if tier == 'quick' else 400
     for k in range(n):
+        if k % 10 == 3:
+            case, probs = pipe_case(rng, tier, seed, k)
+            cov.add(case, True, sample_cap=2); cov.count('kind', 'pipeline')
+            if probs:
+                failures.append(Failure(what='; '.join(probs[:3])[:500], case=case, impl=probs[:8], model='NeoxCkpt', oracle_rejects=True,
+                                        correspondence=CORRESPONDENCES[0], theorems=THEOREMS,
+                                        oracle='the state on every rank contains every layer of every stage, as held by its inverse worker'))
+            continue
         if k % 5 == 4:
             case, probs = rollback_case(rng, tier, seed, k)
             cov.add(case, case['cfg']['D'] > 1 and len(case['cfg']['layers']) >= 2, sample_cap=2)
